@@ -356,6 +356,25 @@ func proofOracle(t *iavl.ImmutableTree, p *ics23.CommitmentProof, key []byte, ot
 			}
 		}
 	}
+	// the tree's own verification helpers must agree with the verdict on the genuine claim and refuse
+	// the claim for a neighbouring key
+	tv := 0
+	if ok, err := t.VerifyProof(p, key); err == nil && ok {
+		tv = 1
+	}
+	if ok, err := t.VerifyProof(p, append(cp(key), 0)); err == nil && ok && p.GetExist() != nil {
+		neg++
+	}
+	if p.GetExist() != nil {
+		if ok, err := t.VerifyNonMembership(p, key); err == nil && ok {
+			neg++
+		}
+	} else if ok, err := t.VerifyMembership(p, key); err == nil && ok {
+		neg++
+	}
+	if tv != pos {
+		neg += 100 // the helper disagrees with the verifier
+	}
 	return fmt.Sprintf("v=%d neg=%d root=%s", pos, neg, enc(root))
 }
 
@@ -810,6 +829,9 @@ func (s *session) exec(args []string) string {
 		return fmt.Sprintf("ver=%d", v)
 	case "import": // import <version> plain|zip (stream=<id> | nodes=<list>) [nocommit] [close]
 		return s.doImport(args[1:])
+	case "setiv": // SetInitialVersion on the open tree
+		t.SetInitialVersion(uint64(atoi(args[1])))
+		return "ok"
 	case "hold": // hold <id> <version>: open an exporter and keep it
 		it, err := t.GetImmutable(atoi(args[2]))
 		if err != nil {
